@@ -1507,6 +1507,11 @@ class Gen(object):
                     M(L, b":%s JOIN #lim%da,#lim%db,#lim%dc" % (p1, k, k, k))
                     M(L, b":%s PART #lim%da,#lim%db,#lim%dc" % (p1, k, k, k))
         elif name == "banrefs":
+            if r.random() < 0.35:
+                # the address a session reference resolves to is spliced into the ban's regular expression as it is: an
+                # address that is not a valid expression (X-Forwarded-For of a trusted bridge) must be answered, not crash
+                x.ra = r.choice([b"[fe80::1%br-lan]", b"10.0.0.1(", b"a[b", b"*", b"x+?", b"\\", b"(?i)x", b"a{2,1}", b"[z-a]", b"(?P<n"])
+                M(x, b"PING :elsewhere")
             masks = self._ref_masks(x)
             r.shuffle(masks)
             for mask in masks[:r.randint(5, len(masks))]:
@@ -1635,6 +1640,19 @@ class Gen(object):
             M(m, b"JOIN " + c)
             M(m, b"MODE %s +o %s" % (c, m.nick or b"m"))
         elif name == "oper":
+            if r.random() < 0.6:
+                # two operators with different passwords: only the configured PAIRS are credentials (not a configured name with
+                # another operator's password, nor prefixes, case variants, swapped order)
+                cfg = dict(self.cfg or self._config())
+                cfg["ops"] = [(b"root", b"hunter2"), (b"admin", b"pw")]
+                self._F(cfg)
+                for line in r.sample([b"OPER root pw", b"OPER admin hunter2", b"OPER hunter2 root", b"OPER pw admin", b"OPER Root hunter2",
+                                      b"OPER root Hunter2", b"OPER roo hunter2", b"OPER root hunter", b"OPER root hunter22", b"OPER admin :pw ",
+                                      b"OPER rootadmin hunter2pw", b"OPER root :hunter2 pw", b"OPER root,admin hunter2"], 6):
+                    M(x, line)
+                    M(x, r.choice([b"KILL %s :crossed" % (m.nick or b"m"), b"NOTICE $* :crossed", b"GLINE %s :crossed" % (m.nick or b"m")]))
+                M(m, r.choice([b"OPER admin pw", b"OPER root hunter2"]))
+                m.oper = m.reg
             M(x, r.choice([b"KILL %s :no" % (m.nick or b"m"), b"GLINE %s :no" % (m.nick or b"m"), b"NOTICE $* :hello all"]))
             ops = [s for s in self._alive(True) if s.oper]
             if ops:
